@@ -1,12 +1,8 @@
--- Root of the `IrisVerif` library: models, lemmas, property theorems and drivers.
+-- Root of the `IrisVerif` library: models, lemmas and property theorems.
+-- The drivers (IrisVerif/Driver/*.lean) each define `main`; they are built as separate targets (see MANIFEST setup_cmd).
 import IrisVerif.Props.C09
-import IrisVerif.Driver.C09
 import IrisVerif.Props.C11
-import IrisVerif.Driver.C11
 import IrisVerif.Model.QMat
 import IrisVerif.Props.C05
-import IrisVerif.Driver.C05
 import IrisVerif.Props.C02
-import IrisVerif.Driver.C02
 import IrisVerif.Props.C07
-import IrisVerif.Driver.C07
